@@ -28,7 +28,7 @@ type Options struct {
 	// Widening options added later. All default to off, and with all of them off the
 	// sequence of draws (hence every existing seed and shrink path) is unchanged.
 	ExecFiles         bool // an added file may be executable: git prints `create mode 100755`, `delete mode 100755`
-	BigFiles          bool // an added file may have 100-1100 lines: numstat figures of three and four digits
+	BigFiles          bool // an added file may have 100-1400 lines: numstat figures of three and four digits
 	AffixNames        bool // file names that are a prefix / a suffix of another name in the pool (f.txt.orig, xf.txt)
 	BulkAdds          bool // a commit may add 9-24 further files at once, whatever MaxPaths says
 	PunctAuthors      bool // author names with - ' . [ ] ( ) @ inside
@@ -342,7 +342,7 @@ func (g *genState) ops(work Tree, own func(string) bool) []Op {
 				op.Binary = true
 			}
 			if g.o.BigFiles && rapid.IntRange(0, 11).Draw(t, "big") == 11 {
-				op.Lines = rapid.IntRange(100, 1100).Draw(t, "bigLines")
+				op.Lines = rapid.IntRange(100, 1400).Draw(t, "bigLines")
 			}
 			if g.o.ExecFiles && rapid.IntRange(0, 4).Draw(t, "exec") == 4 {
 				op.Exec = true
